@@ -55,6 +55,7 @@ pub struct DecPlanItem {
     pub runs: Vec<usize>,
     pub full: bool,
     pub few_caps: bool,
+    pub mixed: bool,
 }
 
 pub fn mk_cfg(it: &DecPlanItem, or: &Oracles, tag_chunk: &'static str, tag_single: &'static str, threads: usize) -> XCfg {
@@ -76,6 +77,7 @@ pub fn mk_cfg(it: &DecPlanItem, or: &Oracles, tag_chunk: &'static str, tag_singl
         tag_chunk,
         tag_single,
         few_caps: it.few_caps,
+        mixed: it.mixed,
     }
 }
 
@@ -108,11 +110,11 @@ fn absorb(stats: &mut Stats, vios: &mut VioSet, label: &str, o: xdec::XOut) {
 }
 
 fn item(enc: &'static str, sink: Sink, repl: bool, bom: BomMode, k: usize, runs: &[usize]) -> DecPlanItem {
-    DecPlanItem { enc, sink, repl, bom, k, words: true, runs: runs.to_vec(), full: false, few_caps: false }
+    DecPlanItem { enc, sink, repl, bom, k, words: true, runs: runs.to_vec(), full: false, few_caps: false, mixed: false }
 }
 
 fn full_item(enc: &'static str, sink: Sink, repl: bool, k: usize) -> DecPlanItem {
-    DecPlanItem { enc, sink, repl, bom: BomMode::Off, k, words: false, runs: vec![], full: true, few_caps: true }
+    DecPlanItem { enc, sink, repl, bom: BomMode::Off, k, words: false, runs: vec![], full: true, few_caps: true, mixed: false }
 }
 
 const ALL_SINKS: [Sink; 4] = [Sink::Utf8, Sink::Utf16, Sink::Str, Sink::String];
@@ -152,6 +154,11 @@ pub fn dec_plan(prop: &str, tier: Tier) -> Vec<DecPlanItem> {
                 }
                 v.push(item(e, Sink::Utf8, false, BomMode::Sniff, 2, &[16]));
                 if !q {
+                    for s in SLICE_SINKS {
+                        let mut it = item(e, s, false, BomMode::Off, 2, &[]);
+                        it.mixed = true;
+                        v.push(it);
+                    }
                     v.push(item(e, Sink::Utf16, true, BomMode::Sniff, 2, &[16]));
                     v.push(item(e, Sink::Utf8, true, BomMode::Remove, 2, &[16]));
                 }
@@ -214,6 +221,12 @@ pub fn dec_plan(prop: &str, tier: Tier) -> Vec<DecPlanItem> {
                     v.push(item(e, Sink::Utf8, false, b, k_of(e), &[16]));
                     v.push(item(e, Sink::Utf8, true, b, k_of(e), &[16]));
                     v.push(item(e, Sink::Utf16, false, b, k_of(e), &[16]));
+                }
+                // mixed-method runs: the query of one method family in a state reached through the other
+                for s in SLICE_SINKS {
+                    let mut it = item(e, s, false, BomMode::Off, 2, &[]);
+                    it.mixed = true;
+                    v.push(it);
                 }
             }
         }
